@@ -28,6 +28,80 @@ type condOracle func(cond ssa.Value) (bool, bool)
 // reachPruned: blocks reachable from `from`, not following edges the oracle
 // rules out, not entering `stop`; returns the set and the edges into stop.
 func reachPruned(from *ssa.BasicBlock, known condOracle, stop *ssa.BasicBlock) (map[*ssa.BasicBlock]bool, []Edge) {
+	// narrowing: boolean phis (hoisted or short-circuit conditions) are decided
+	// from the incoming edges that are feasible in the previous, larger, reach set
+	reach, backs, _ := reachNarrowed(from, known, stop)
+	return reach, backs
+}
+
+// reachNarrowed also returns the oracle extended by the decided boolean phis.
+func reachNarrowed(from *ssa.BasicBlock, known condOracle, stop *ssa.BasicBlock) (map[*ssa.BasicBlock]bool, []Edge, condOracle) {
+	reach, backs := reachPruned1(from, known, stop)
+	ext := known
+	for iter := 0; iter < 4; iter++ {
+		prev := reach
+		ext = func(cond ssa.Value) (bool, bool) {
+			if v, k := known(cond); k {
+				return v, true
+			}
+			return phiBool(cond, known, prev, 0)
+		}
+		r2, b2 := reachPruned1(from, ext, stop)
+		if len(r2) == len(reach) && len(b2) == len(backs) {
+			return r2, b2, ext
+		}
+		reach, backs = r2, b2
+	}
+	return reach, backs, ext
+}
+
+// phiBool: value of a boolean phi when all incoming edges that are feasible
+// (predecessor in reach, branch towards the phi's block not ruled out) agree.
+func phiBool(v ssa.Value, known condOracle, reach map[*ssa.BasicBlock]bool, depth int) (bool, bool) {
+	phi, ok := v.(*ssa.Phi)
+	if !ok || depth > 3 {
+		return false, false
+	}
+	if b, isB := phi.Type().Underlying().(*types.Basic); !isB || b.Kind() != types.Bool {
+		return false, false
+	}
+	var val, have bool
+	for i, e := range phi.Edges {
+		pred := phi.Block().Preds[i]
+		if !reach[pred] {
+			continue
+		}
+		if iff, isIf := pred.Instrs[len(pred.Instrs)-1].(*ssa.If); isIf {
+			if cv, k := evalCond(iff.Cond, known); k {
+				want := pred.Succs[0]
+				if !cv {
+					want = pred.Succs[1]
+				}
+				if want != phi.Block() {
+					continue
+				}
+			}
+		}
+		var ev, ek bool
+		if c, isC := constBool(e); isC {
+			ev, ek = c, true
+		} else if x, k := evalCond(e, known); k {
+			ev, ek = x, true
+		} else if x, k := phiBool(e, known, reach, depth+1); k {
+			ev, ek = x, true
+		}
+		if !ek {
+			return false, false
+		}
+		if have && ev != val {
+			return false, false
+		}
+		val, have = ev, true
+	}
+	return val, have
+}
+
+func reachPruned1(from *ssa.BasicBlock, known condOracle, stop *ssa.BasicBlock) (map[*ssa.BasicBlock]bool, []Edge) {
 	seen := map[*ssa.BasicBlock]bool{from: true}
 	var backs []Edge
 	work := []*ssa.BasicBlock{from}
@@ -165,18 +239,30 @@ func extractReader(w *World, pkg *ssa.Package) (*readerTable, []string) {
 				continue
 			}
 			if b, ok := phi.Type().Underlying().(*types.Basic); ok && b.Kind() == types.Int {
+				// leaves of the phi web (through phis of continue/post blocks) are all constants
+				consts := map[int64]bool{}
 				allConst := true
-				n := 0
-				for _, e := range phi.Edges {
-					if e == ssa.Value(phi) {
-						continue
+				seen := map[ssa.Value]bool{}
+				var leaves func(v ssa.Value)
+				leaves = func(v ssa.Value) {
+					if seen[v] {
+						return
 					}
-					if _, ok := constInt(e); !ok {
-						allConst = false
+					seen[v] = true
+					if p, ok := v.(*ssa.Phi); ok {
+						for _, e := range p.Edges {
+							leaves(e)
+						}
+						return
 					}
-					n++
+					if k, ok := constInt(v); ok {
+						consts[k] = true
+						return
+					}
+					allConst = false
 				}
-				if allConst && n >= 3 {
+				leaves(phi)
+				if allConst && len(consts) >= 3 {
 					loop, statePhi = l, phi
 				}
 			}
@@ -190,9 +276,7 @@ func extractReader(w *World, pkg *ssa.Package) (*readerTable, []string) {
 			diffPhi = phi
 		}
 	}
-	if diffPhi == nil {
-		infra("R-AUTOMATON: cannot find the accumulated result (a phi of the result type at the line loop)")
-	}
+	_ = diffPhi // the result may also live in a captured cell; flushes are counted as sites
 	// the pending element: local DiffElement
 	var de *ssa.Alloc
 	allInstrs(fn, func(in ssa.Instruction) {
@@ -202,6 +286,10 @@ func extractReader(w *World, pkg *ssa.Package) (*readerTable, []string) {
 	})
 	if de == nil {
 		infra("R-AUTOMATON: no local DiffElement in readDiff")
+	}
+	flush := flushSites(fn, de, fn.Signature.Results().At(0).Type())
+	if len(flush) == 0 {
+		infra("R-AUTOMATON: no site appends the pending element to the result in readDiff")
 	}
 	// header cell: string cell assigned a one-character prefix slice
 	var headerCell, errCell *ssa.Alloc
@@ -249,10 +337,25 @@ func extractReader(w *World, pkg *ssa.Package) (*readerTable, []string) {
 	}
 	// state constants
 	stateSet := map[int64]bool{}
-	for _, e := range statePhi.Edges {
-		if k, ok := constInt(e); ok {
-			stateSet[k] = true
+	{
+		seen := map[ssa.Value]bool{}
+		var leaves func(v ssa.Value)
+		leaves = func(v ssa.Value) {
+			if seen[v] {
+				return
+			}
+			seen[v] = true
+			if p, ok := v.(*ssa.Phi); ok {
+				for _, e := range p.Edges {
+					leaves(e)
+				}
+				return
+			}
+			if k, ok := constInt(v); ok {
+				stateSet[k] = true
+			}
 		}
+		leaves(statePhi)
 	}
 	allInstrs(fn, func(in ssa.Instruction) {
 		if bo, ok := in.(*ssa.BinOp); ok && (bo.Op == token.EQL || bo.Op == token.NEQ) && bo.X == ssa.Value(statePhi) {
@@ -383,6 +486,11 @@ func extractReader(w *World, pkg *ssa.Package) (*readerTable, []string) {
 			}
 			nexts := map[int64]bool{}
 			flushes := map[int]bool{}
+			nf, amb := countFlushSites(flush, bodyEntry, known, loop.Header, nil)
+			if amb != "" {
+				tr.Problems = append(tr.Problems, amb)
+			}
+			flushes[nf] = true
 			for _, e := range backs {
 				pi := -1
 				for j, p := range loop.Header.Preds {
@@ -393,15 +501,40 @@ func extractReader(w *World, pkg *ssa.Package) (*readerTable, []string) {
 				if pi < 0 {
 					continue
 				}
-				sv := statePhi.Edges[pi]
-				if sv == ssa.Value(statePhi) {
-					nexts[s] = true
-				} else if k, ok := constInt(sv); ok {
-					nexts[k] = true
-				} else {
+				var resolve func(v ssa.Value, depth int)
+				resolve = func(v ssa.Value, depth int) {
+					if v == ssa.Value(statePhi) {
+						nexts[s] = true
+						return
+					}
+					if k, ok := constInt(v); ok {
+						nexts[k] = true
+						return
+					}
+					if p, ok := v.(*ssa.Phi); ok && depth < 4 {
+						for i, e := range p.Edges {
+							pred := p.Block().Preds[i]
+							if !reach[pred] {
+								continue
+							}
+							if iff, isIf := pred.Instrs[len(pred.Instrs)-1].(*ssa.If); isIf {
+								if cv, k := evalCond(iff.Cond, known); k {
+									want := pred.Succs[0]
+									if !cv {
+										want = pred.Succs[1]
+									}
+									if want != p.Block() {
+										continue
+									}
+								}
+							}
+							resolve(e, depth+1)
+						}
+						return
+					}
 					tr.Problems = append(tr.Problems, "next state is not a constant")
 				}
-				flushes[countFlushesIn(diffPhi.Edges[pi], diffPhi, known, reach, map[ssa.Value]bool{})] = true
+				resolve(statePhi.Edges[pi], 0)
 			}
 			if len(nexts) != 1 || len(flushes) != 1 {
 				tr.Problems = append(tr.Problems, fmt.Sprintf("transition is not a function of (state, header): next states %v, flush counts %v", nexts, flushes))
@@ -474,7 +607,11 @@ func extractReader(w *World, pkg *ssa.Package) (*readerTable, []string) {
 				// success or data-error; count flushes on the success value
 				if isNilErrReturn(ret) {
 					okRet++
-					et.Flushes = countFlushesIn(ret.Results[0], diffPhi, stateKnown, reach, map[ssa.Value]bool{})
+					nf, amb := countFlushSites(flush, endBlock, stateKnown, nil, ret.Block())
+					if amb != "" {
+						et.Problems = append(et.Problems, amb)
+					}
+					et.Flushes = nf
 					counts[et.Flushes] = true
 				}
 			}
@@ -747,14 +884,13 @@ func extractWriter(w *World, pkg *ssa.Package) (*writerTable, []string) {
 			}
 			for _, in := range b.Instrs {
 				c, ok := in.(*ssa.Call)
-				if !ok || len(c.Call.Args) < 2 {
+				if !ok {
 					continue
 				}
-				if !strings.HasSuffix(calleeFullName(c), ".WriteString") {
-					continue
-				}
-				if s, ok := constString(c.Call.Args[1]); ok && len(s) > 0 && s[0] != '\n' && s[0] != 0x1b {
-					got[s[:1]] = true
+				for _, s := range writtenLiterals(c) {
+					if len(s) > 0 && s[0] != '\n' && s[0] != 0x1b {
+						got[s[:1]] = true
+					}
 				}
 			}
 		}
@@ -1027,4 +1163,197 @@ func ruleAutomaton(w *World, r *Report, pkg *ssa.Package) {
 		}
 	}
 	_ = constant.MakeBool
+}
+
+// flushSites: instructions of fn that append the pending element (a load of
+// de) to a value of the result type — directly, or by calling a local closure
+// whose body does so.
+func flushSites(fn *ssa.Function, de *ssa.Alloc, resT types.Type) map[ssa.Instruction]bool {
+	out := map[ssa.Instruction]bool{}
+	isFlushAppend := func(f *ssa.Function, in ssa.Instruction) bool {
+		c, ok := in.(*ssa.Call)
+		if !ok {
+			return false
+		}
+		b, ok := c.Call.Value.(*ssa.Builtin)
+		if !ok || b.Name() != "append" || len(c.Call.Args) != 2 || !types.Identical(c.Type(), resT) {
+			return false
+		}
+		el := singleVariadicOfSlice(c.Call.Args[1])
+		if el == nil {
+			return false
+		}
+		ld, ok := strip(el).(*ssa.UnOp)
+		if !ok || ld.Op != token.MUL {
+			return false
+		}
+		switch x := ld.X.(type) {
+		case *ssa.Alloc:
+			return x == de
+		case *ssa.FreeVar:
+			// bound to de in the enclosing function
+			for i, fv := range f.FreeVars {
+				if fv != x {
+					continue
+				}
+				bound := false
+				allInstrs(fn, func(in2 ssa.Instruction) {
+					if mc, ok := in2.(*ssa.MakeClosure); ok && mc.Fn == ssa.Value(f) && i < len(mc.Bindings) && mc.Bindings[i] == ssa.Value(de) {
+						bound = true
+					}
+				})
+				return bound
+			}
+		}
+		return false
+	}
+	flushing := map[*ssa.Function]bool{}
+	for _, cl := range fn.AnonFuncs {
+		allInstrs(cl, func(in ssa.Instruction) {
+			if isFlushAppend(cl, in) {
+				flushing[cl] = true
+			}
+		})
+	}
+	allInstrs(fn, func(in ssa.Instruction) {
+		if isFlushAppend(fn, in) {
+			out[in] = true
+		}
+		if c, ok := in.(*ssa.Call); ok {
+			if sf := staticCallee(c); sf != nil && flushing[sf] {
+				out[in] = true
+			}
+		}
+	})
+	return out
+}
+
+// countFlushSites: number of flush sites that lie on every pruned path from
+// `from` to the stop block (loop header) or to the target block; a site on
+// some but not all such paths makes the count ambiguous.
+func countFlushSites(flush map[ssa.Instruction]bool, from *ssa.BasicBlock, known0 condOracle, stop, target *ssa.BasicBlock) (int, string) {
+	reach, backs, known := reachNarrowed(from, known0, stop)
+	goal := func(r map[*ssa.BasicBlock]bool, bk []Edge) bool {
+		if stop != nil {
+			return len(bk) > 0
+		}
+		return r[target]
+	}
+	// blocks from which the goal is reachable (within the pruned graph)
+	can := map[*ssa.BasicBlock]bool{}
+	if stop != nil {
+		for _, e := range backs {
+			can[e.From] = true
+		}
+	} else if reach[target] {
+		can[target] = true
+	}
+	for changed := true; changed; {
+		changed = false
+		for b := range reach {
+			if can[b] {
+				continue
+			}
+			feas := []bool{true, true}
+			if iff, ok := b.Instrs[len(b.Instrs)-1].(*ssa.If); ok {
+				if v, k := evalCond(iff.Cond, known); k {
+					feas[0], feas[1] = v, !v
+				}
+			}
+			for i, sc := range b.Succs {
+				if i < 2 && !feas[i] {
+					continue
+				}
+				if can[sc] && reach[sc] {
+					can[b] = true
+					changed = true
+				}
+			}
+		}
+	}
+	n := 0
+	for in := range flush {
+		b := in.Block()
+		if !reach[b] || !can[b] {
+			continue
+		}
+		// is b on every path? remove b and see whether the goal is still reachable
+		if b != from {
+			without := func(cond ssa.Value) (bool, bool) { return known(cond) }
+			r2, bk2 := reachPrunedAvoid(from, without, stop, b)
+			if goal(r2, bk2) {
+				return n, fmt.Sprintf("a flush of the pending hunk at block %d is on some but not all paths", b.Index)
+			}
+		}
+		n++
+	}
+	return n, ""
+}
+
+// reachPrunedAvoid: like reachPruned but never enters block avoid.
+func reachPrunedAvoid(from *ssa.BasicBlock, known condOracle, stop, avoid *ssa.BasicBlock) (map[*ssa.BasicBlock]bool, []Edge) {
+	seen := map[*ssa.BasicBlock]bool{from: true}
+	var backs []Edge
+	work := []*ssa.BasicBlock{from}
+	for len(work) > 0 {
+		b := work[len(work)-1]
+		work = work[:len(work)-1]
+		feas := []bool{true, true}
+		if iff, ok := b.Instrs[len(b.Instrs)-1].(*ssa.If); ok {
+			if v, k := evalCond(iff.Cond, known); k {
+				feas[0], feas[1] = v, !v
+			}
+		}
+		for i, s := range b.Succs {
+			if i < 2 && !feas[i] {
+				continue
+			}
+			if s == avoid {
+				continue
+			}
+			if s == stop {
+				backs = append(backs, Edge{b, i})
+				continue
+			}
+			if !seen[s] {
+				seen[s] = true
+				work = append(work, s)
+			}
+		}
+	}
+	return seen, backs
+}
+
+// writtenLiterals: constant strings a call writes into a buffer: WriteString
+// with a constant, or an in-package helper that is handed a constant string
+// which the helper passes to WriteString.
+func writtenLiterals(c *ssa.Call) []string {
+	if strings.HasSuffix(calleeFullName(c), ".WriteString") && len(c.Call.Args) >= 2 {
+		if s, ok := constString(c.Call.Args[1]); ok {
+			return []string{s}
+		}
+		return nil
+	}
+	sf := staticCallee(c)
+	if sf == nil || sf.Blocks == nil || sf.Parent() != nil {
+		return nil
+	}
+	var out []string
+	for i, a := range c.Call.Args {
+		s, ok := constString(a)
+		if !ok || i >= len(sf.Params) {
+			continue
+		}
+		p := sf.Params[i]
+		writes := false
+		allInstrs(sf, func(in ssa.Instruction) {
+			if cc, ok := in.(*ssa.Call); ok && strings.HasSuffix(calleeFullName(cc), ".WriteString") && len(cc.Call.Args) >= 2 && strip(cc.Call.Args[1]) == ssa.Value(p) {
+				writes = true
+			}
+		})
+		if writes {
+			out = append(out, s)
+		}
+	}
+	return out
 }
